@@ -571,6 +571,7 @@ class Executor:
         self.values = {}     # step index -> returned python value (in-memory only)
         self.argvals = {}    # step index -> built argument values
         self.draws = {}      # step index -> list of recorded randn arrays
+        self.buffers = {}    # (client, name) -> ndarray reused and refilled in place by a client
         self.seq = 0
 
     def _target(self, step):
@@ -588,6 +589,18 @@ class Executor:
         self.seq += 1
         w.refresh_seams()
         args = [w.build_arg(s) for s in step.get("args", [])]
+        # a client that keeps one buffer and refills it in place between calls: the SAME
+        # ndarray object is handed to the library again with new contents
+        for j, sp in enumerate(step.get("args", [])):
+            if isinstance(sp, dict) and sp.get("buf") and isinstance(args[j], np.ndarray):
+                key = (step.get("client"), sp["buf"])
+                old = self.buffers.get(key)
+                if old is not None and old.shape == args[j].shape and old.dtype == args[j].dtype \
+                        and old.flags.writeable:
+                    np.copyto(old, args[j])
+                    args[j] = old
+                else:
+                    self.buffers[key] = args[j]
         kwargs = {k: w.build_arg(s) for k, s in (step.get("kwargs") or {}).items()}
         if step.get("readonly"):
             for a in list(args) + list(kwargs.values()):
